@@ -480,3 +480,24 @@ func ContextAfterFunc(site string, ctx context.Context, f func()) func() bool {
 		f()
 	})
 }
+
+// ---------------------------------------------------------------------------
+// sync/atomic: the operation itself stays what it is; a yield follows it
+
+// AtomicAfter wraps an atomic operation that returns a value.
+//go:norace
+func AtomicAfter[T any](site string, v T) T {
+	if s := cur(); s != nil && s.self() != nil {
+		Yield(site)
+	}
+	return v
+}
+
+// AtomicVoid wraps an atomic operation without a result (Store).
+//go:norace
+func AtomicVoid(site string, f func()) {
+	f()
+	if s := cur(); s != nil && s.self() != nil {
+		Yield(site)
+	}
+}
